@@ -558,6 +558,10 @@ impl Lock {
                     props.push("C12");
                 }
             }
+            if self.is_rtu() && !self.last_peer_action.is_empty() {
+                // on a serial line a wrong reaction to received bytes is a framing matter too
+                props.push("C06");
+            }
             let detail = format!("after `{}` (t={}): listener saw {:?}, model expects {:?}", action, now, got_states, exp_states);
             for p in props {
                 out.violate(p, "listener_sequence", detail.clone());
@@ -600,6 +604,9 @@ impl Lock {
             }
             if involves(&|o| *o == Outcome::Rejected) {
                 props.push("C03");
+            }
+            if self.is_rtu() && !self.last_peer_action.is_empty() {
+                props.push("C06");
             }
             let rule = format!(
                 "completion/{}",
